@@ -1,11 +1,14 @@
 /- C03 ("a result is accepted at most once"; `action_accepted_once` at transaction granularity) at
    STATEMENT granularity: the acceptance of an action result,
    `DefaultEngine.on_action_complete -> action_handler.on_action_complete -> RegularAction.complete`
-   (script `actionComplete`, regenerated on every run together with the fact that no lock and no
-   compare-and-swap protects the action row on this path).
+   (script `actionComplete`, regenerated on every run).
 
-   The guard `is_completed(self.action_ex.state)` reads the copy loaded at the start; state, output
-   and accepted are ORM assignments, i.e. UNCONDITIONAL updates issued at the next flush. -/
+   Since repo patch 26 the state is set through `update_action_execution_state` (update_on_match with
+   the state read as expected value; no match -> ValueError "already completed", the transaction is
+   rolled back); output and accepted are ORM assignments made after the compare-and-swap has won,
+   i.e. under the row lock.  Before the patch state / output / accepted were unconditional ORM
+   writes behind an `is_completed` test on the stale copy (`action_accept_once_full_fails`: two
+   results handled concurrently were both accepted, the later flush overwrote the accepted one). -/
 import Mistral.Lemmas.Race
 import Mistral.Gen.RaceScripts
 namespace Mistral.Props.C03RaceAction
@@ -14,71 +17,93 @@ open Mistral.Race Mistral.Gen.RaceScripts
 set_option maxRecDepth 4000
 set_option linter.unusedSimpArgs false
 
-/-- Whatever commits between the look-up and the flush: if the loaded copy was not completed, the
-    script writes ITS state and ITS output over the row of the flush instant. -/
-theorem action_complete_overwrites (sched : Nat → Intf) (vars : Fields) (row0 : Row)
-    (hr : (pre sched 1 row0).alive = true)
-    (hn : memVals completedStates ((pre sched 1 row0).f 0) = false)
-    (hz : (pre sched 7 row0).alive = true)
-    (hs : vars 0 ≠ (pre sched 1 row0).f 0) :
-    (runWith actionComplete sched vars row0).sh.db.f 0 = vars 0 ∧
-    (runWith actionComplete sched vars row0).sh.db.f 2 = vars 2 ∧
-    (runWith actionComplete sched vars row0).l.emitted = [2] := by
-  simp only [pre, completedStates] at hr hn hz hs
-  simp only [actionComplete]
-  by_cases h5 : Val.bool true = (sched 0 row0).f 3
-  · race_simp [hr, hn, hz, hs, h5]
-  · race_simp [hr, hn, hz, hs, h5]
+/-- what an accepted result installs on the row `rc` its compare-and-swap matched -/
+def acceptRow (state out : Val) (rr rc : Row) : Row :=
+  { alive := true,
+    f := fun k =>
+      if k = 0 then state
+      else if k = 2 then out
+      else if k = 3 then (if Val.bool true = rr.f 3 then rc.f 3 else Val.bool true)
+      else rc.f k }
+
+/-- The acceptance transaction under arbitrary interference: NOTHING (rejected: the committed row is
+    the interferers' row, nothing is handed to the task) or, at the instant of its compare-and-swap,
+    on a row whose state is still the not-completed state it read, state + output + accepted
+    installed together. -/
+theorem action_complete_atomic (sched : Nat → Intf) (vars : Fields) (row0 : Row) :
+    ((runWith actionComplete sched vars row0).sh.db = pre sched 9 row0 ∧
+      (runWith actionComplete sched vars row0).l.emitted = []) ∨
+    ((pre sched 1 row0).alive = true ∧ memVals completedStates ((pre sched 1 row0).f 0) = false ∧
+      (pre sched 4 row0).alive = true ∧ (pre sched 4 row0).f 0 = (pre sched 1 row0).f 0 ∧
+      (runWith actionComplete sched vars row0).sh.db =
+        between sched 4 5 (acceptRow (vars 0) (vars 2) (pre sched 1 row0) (pre sched 4 row0)) ∧
+      (runWith actionComplete sched vars row0).l.emitted = [2]) := by
+  by_cases h1 : (pre sched 1 row0).alive = true
+  · by_cases h0 : memVals completedStates ((pre sched 1 row0).f 0) = true
+    · left
+      simp only [pre, completedStates] at h1 h0
+      simp only [actionComplete]
+      race_simp [h1, h0]
+    · by_cases h3 : (pre sched 4 row0).alive = true ∧ (pre sched 4 row0).f 0 = (pre sched 1 row0).f 0
+      · right
+        obtain ⟨h3a, h3b⟩ := h3
+        refine ⟨h1, by simpa using h0, h3a, h3b, ?_⟩
+        simp only [pre, completedStates] at h1 h0 h3a h3b
+        simp only [actionComplete]
+        by_cases h5 : Val.bool true = (sched 0 row0).f 3 <;>
+          (race_simp [h1, h0, h3a, h3b, h5, acceptRow]
+           try race_rows)
+      · left
+        simp only [pre, completedStates] at h1 h0 h3
+        simp only [actionComplete]
+        race_simp [h1, h0, h3]
+  · left
+    simp only [pre] at h1
+    simp only [actionComplete]
+    race_simp [h1]
+
+/-- C03 "a result is accepted at most once / an accepted result is final", for ALL interference: if
+    the action execution is completed at the instant this transaction's compare-and-swap runs
+    (whoever completed it: the other result of a duplicate, the heartbeat checker, ...), the
+    transaction leaves no trace and hands nothing to the task. -/
+theorem action_accept_once (sched : Nat → Intf) (vars : Fields) (row0 : Row)
+    (hfin : memVals completedStates ((pre sched 4 row0).f 0) = true) :
+    (runWith actionComplete sched vars row0).sh.db = pre sched 9 row0 ∧
+    (runWith actionComplete sched vars row0).l.emitted = [] := by
+  rcases action_complete_atomic sched vars row0 with h | ⟨_, hn, _, heq, _⟩
+  · exact h
+  · rw [heq] at hfin; rw [hfin] at hn; cases hn
+
+/-- state and output of the row come from ONE result -/
+theorem action_state_output_together (sched : Nat → Intf) (vars : Fields) (row0 : Row) :
+    (runWith actionComplete sched vars row0).sh.db = pre sched 9 row0 ∨
+    ∃ W : Row, (runWith actionComplete sched vars row0).sh.db = between sched 4 5 W ∧
+      W.f 0 = vars 0 ∧ W.f 2 = vars 2 := by
+  rcases action_complete_atomic sched vars row0 with h | ⟨_, _, _, _, h, _⟩
+  · exact Or.inl h.1
+  · exact Or.inr ⟨_, h, by simp [acceptRow], by simp [acceptRow]⟩
 
 def running : Row := { alive := true, f := fun k => if k = 0 then .str "RUNNING" else if k = 3 then .bool false else .null }
 def first : Fields := fun k => if k = 0 then .str "ERROR" else if k = 2 then .str "first-result" else .null
 def second : Fields := fun k => if k = 0 then .str "SUCCESS" else if k = 2 then .str "second-result" else .null
-/-- another engine process accepts ANOTHER result for the same action execution (heartbeat expiry,
-    redelivered or duplicated `on_action_complete`) right after this one's look-up -/
+/-- another engine process accepts ANOTHER result for the same action execution right after this
+    one's look-up -/
 def otherResult : Nat → Intf := fun j => if j = 1 then atomicOf actionComplete first else fun r => r
 
-/-- "at most one result is accepted / an accepted result is final": if the row is completed at the
-    instant this transaction flushes, it leaves it alone.  FALSE of the code: two results for one
-    action execution handled concurrently are BOTH accepted; the later flush overwrites state and
-    output of the action execution whose first result was already accepted and handed to the task
-    (ERROR -> SUCCESS here).  Known finding `accepted-action-result-overwritten-by-racing-result`,
-    replayed on the real engine by the race stream. -/
-theorem action_accept_once_full_fails :
-    ¬ (∀ (sched : Nat → Intf) (vars : Fields) (row0 : Row),
-        memVals completedStates ((pre sched 7 row0).f 0) = true →
-        (runWith actionComplete sched vars row0).sh.db = pre sched 7 row0) := by
-  intro h
-  have := h otherResult second running (by
-    simp only [actionComplete, completedStates]
-    race_simp [memVals, otherResult, atomicOf, first, running, actionComplete])
-  have h0 := congrArg (fun r => r.f 0) this
-  simp only [actionComplete] at h0
-  race_simp_at h0 [memVals, otherResult, atomicOf, first, second, running, actionComplete]
+/-- regression + non-vacuity (the former `action_accept_once_full_fails` witness): the hypothesis of
+    `action_accept_once` holds for that race and the row keeps the FIRST result -/
+example : memVals completedStates ((pre otherResult 4 running).f 0) = true ∧
+    (runWith actionComplete otherResult second running).sh.db.f 0 = .str "ERROR" ∧
+    (runWith actionComplete otherResult second running).sh.db.f 2 = .str "first-result" ∧
+    (runWith actionComplete otherResult second running).l.emitted = [] := by
+  simp only [actionComplete, completedStates]
+  race_simp [memVals, otherResult, atomicOf, first, second, running, actionComplete]
 
-/-- .. and TRUE at transaction granularity (nothing commits between this transaction's look-up and
-    its commit): a completed action execution rejects the result, nothing is handed to the task —
-    what `Props.C03.action_accepted_once` / `C06.completed_action_rejects` model. -/
-theorem action_accept_once_partial (sched : Nat → Intf) (vars : Fields) (row0 : Row)
-    (hid : ∀ k r, 1 ≤ k → sched k r = r)
-    (ha : (pre sched 7 row0).alive = true)
-    (hfin : memVals completedStates ((pre sched 7 row0).f 0) = true) :
-    (runWith actionComplete sched vars row0).sh.db = pre sched 7 row0 ∧
-    (runWith actionComplete sched vars row0).l.emitted = [] := by
-  have h1 : ∀ r, sched 1 r = r := fun r => hid 1 r (by omega)
-  have h2 : ∀ r, sched 2 r = r := fun r => hid 2 r (by omega)
-  have h3 : ∀ r, sched 3 r = r := fun r => hid 3 r (by omega)
-  have h4 : ∀ r, sched 4 r = r := fun r => hid 4 r (by omega)
-  have h5 : ∀ r, sched 5 r = r := fun r => hid 5 r (by omega)
-  have h6 : ∀ r, sched 6 r = r := fun r => hid 6 r (by omega)
-  simp only [pre, h1, h2, h3, h4, h5, h6, completedStates] at ha hfin ⊢
+/-- alone the result is accepted -/
+example : (runWith actionComplete (fun _ r => r) second running).sh.db.f 0 = .str "SUCCESS" ∧
+    (runWith actionComplete (fun _ r => r) second running).sh.db.f 3 = .bool true ∧
+    (runWith actionComplete (fun _ r => r) second running).l.emitted = [2] := by
   simp only [actionComplete]
-  race_simp [ha, hfin, h1, h2, h3, h4, h5, h6]
-
-/-- non-vacuity of the partial statement: the first result committed BEFORE the second transaction
-    starts: rejected -/
-example : (runWith actionComplete (fun j => if j = 0 then atomicOf actionComplete first else fun r => r) second running).sh.db.f 0
-    = .str "ERROR" := by
-  simp only [actionComplete]
-  race_simp [memVals, atomicOf, first, second, running, actionComplete]
+  race_simp [memVals, second, running]
 
 end Mistral.Props.C03RaceAction
